@@ -167,7 +167,7 @@ func c11Probe(backend string, a, b c11addr) string {
 
 func C11() *vk.Check {
 	return &vk.Check{ID: "C11", Level: "exploration", MinEvaluations: 1000, Shards: func(string) int { return 8 }, Run: runC11,
-		Rule: "exhaustive over ordered pairs of different addresses (type, session-if-sessioned, key) drawn from an adversarial alphabet (separators, type-prefix characters, language-like suffixes, empty session, path fragments, binary bytes): quick 24 session ids x 24 keys, thorough 60 x 60 plus PRNG binary ids/keys; types STATE, USERDATA and unlocked BIN/TEMPLATE/MENU/STATICLOAD; backends mem, fs, fs binary-key, Postgres fake. All n(n-1) ordered pairs are covered by bit-indexed rounds: round (j,b) writes a unique value to every address whose index has bit j == b on a fresh store and then reads all addresses; a written address must return its own value, an unwritten one must not return any value; on fs every session context's listing must only contain that session's records. Every hit is re-run as an isolated two-address probe on a fresh store and its mechanism computed from the two addresses. " +
+		Rule: "exhaustive over ordered pairs of different addresses (type, session-if-sessioned, key) drawn from an adversarial alphabet (separators, type-prefix characters, language-like suffixes, empty session, path fragments, binary bytes): quick 24 session ids x 24 keys, thorough 60 x 60 plus PRNG binary ids/keys; types STATE, USERDATA and unlocked BIN/TEMPLATE/MENU/STATICLOAD; backends mem, fs, fs binary-key, Postgres fake. All n(n-1) ordered pairs are covered by bit-indexed rounds: round (j,b) writes a unique value to every address whose index has bit j == b on a fresh store and then reads all addresses; a written address must return its own value, an unwritten one must not return any value; on fs and the Postgres fake every session context's listing must only contain that session's records. Every hit is re-run as an isolated two-address probe on a fresh store and its mechanism computed from the two addresses. " +
 			"Plus a persister leg: one persist.Persister saves the snapshots of 2/3/8 sessions one after another on each backend (records of equal and of different size); each session loaded through a fresh handle must get back its own state and cache. distinct = ordered (written, unwritten) pairs covered, by construction; non-trivial = every pair of different addresses.",
 		Assumptions: []string{"an address whose Put fails is 'not accepted by the backend' and only has to stay unreadable", "values are unique per address and round, so a value identifies the write it came from"}}
 }
@@ -289,8 +289,8 @@ func runC11(c *vk.Ctx) {
 						check(a, got, how)
 					}
 				}
-				// listings (fs): per sessioned context, nothing of another address's session/type
-				if backend == "fs" || backend == "fsbin" {
+				// listings (fs, Postgres): per sessioned context, nothing of another address's session/type
+				if backend == "fs" || backend == "fsbin" || backend == "pg" {
 					for _, t := range c11Types[:2] {
 						for _, sid := range sids {
 							s.SetPrefix(t)
